@@ -46,6 +46,7 @@ func (s *Skiplist) NewIterator2(cmp CompareFn,
 // SeekFirst moves cursor to the start
 func (it *Iterator) SeekFirst() {
 	it.prev = it.s.head
+	verifYield(VerifPtItFirst)
 	it.curr, _ = it.s.head.getNext(0)
 	it.valid = true
 }
@@ -102,11 +103,13 @@ func (it *Iterator) Next() {
 
 retry:
 	it.valid = true
+	verifYield(VerifPtItNext)
 	next, deleted := it.curr.getNext(0)
 	if deleted {
 		// Current node is deleted. Unlink current node from the level
 		// and make next node as current node.
 		// If it fails, refresh the path buffer and obtain new current node.
+		verifYield(VerifPtItHelp)
 		if it.s.helpDelete(0, it.prev, it.curr, next, &it.s.Stats) {
 			it.curr = next
 		} else {
